@@ -22,10 +22,11 @@ Thorough == Tier = "thorough"
 
 (* atoms outside ASCII are written {U+XXXX} (see MC_Syntax.tla); the checker puts the characters in *)
 AtomCodesDef ==
-    [s \in {"a", "b", "ab", "B", "a b", "{U+00E9}", "{U+65E5}", "z", "10", "a{U+00E9}", "f", "g", "h", "noun_phrase",
+    [s \in {"a", "b", "ab", "B", "a b", "{U+00E9}", "{U+65E5}", "z", "10", "9", "07", "a{U+00E9}", "f", "g", "h", "noun_phrase",
             "np4", "noun*", "no*", "*", "f*", "x*", "fg*", "c", "d", "x"} |->
        CASE s = "a" -> <<97>> [] s = "b" -> <<98>> [] s = "ab" -> <<97, 98>> [] s = "B" -> <<66>>
          [] s = "a b" -> <<97, 32, 98>> [] s = "{U+00E9}" -> <<233>> [] s = "{U+65E5}" -> <<26085>>
+         [] s = "9" -> <<57>> [] s = "07" -> <<48, 55>>
          [] s = "z" -> <<122>> [] s = "10" -> <<49, 48>> [] s = "a{U+00E9}" -> <<97, 233>>
          [] s = "f" -> <<102>> [] s = "g" -> <<103>> [] s = "h" -> <<104>>
          [] s = "noun_phrase" -> <<110, 111, 117, 110, 95, 112, 104, 114, 97, 115, 101>>
@@ -51,12 +52,12 @@ Ints   == {IntT(0), IntT(1), IntT(-1), IntT(2), IntE(1, 62), IntE(-1, 63), IntE(
 Flts   == {Flt(0, 0), FltS("-0"), Flt(1, 0), Flt(-1, 0), Flt(1, -1), Flt(3, -1), Flt(-3, -1),
            Flt(1, 62), Flt(1, -20), Flt(5, -2), Flt(1, 40), Flt(1, 64), Flt(-1, 64), Flt(1, 70), Flt(-1, 63), Flt(1, 63)}
 Atoms  == {a, b, Atom("ab"), Atom("B"), Atom("a b"), Atom("{U+00E9}"), Atom("{U+65E5}"), Atom("z"),
-           Atom("10"), Atom("a{U+00E9}")}
+           Atom("10"), Atom("9"), Atom("07"), Atom("a{U+00E9}")}
 NonC   == {Y, Cx("f", <<a>>), Lst(<<a>>), Anon, EmptyList}
 Oprs   == Ints \cup Flts \cup Atoms \cup NonC
 OprsQ  == {IntT(0), IntT(1), IntT(-1), IntE(1, 62), IntE(-1, 63), Flt(0, 0), FltS("-0"), Flt(1, 0),
            Flt(3, -1), Flt(-3, -1), Flt(1, 62), Flt(-1, 64), Flt(1, 63), Flt(-1, 63), a, b, Atom("ab"), Atom("B"), Atom("a b"), Atom("{U+00E9}"),
-           Atom("10"), Y, Cx("f", <<a>>), Anon}
+           Atom("10"), Atom("9"), Y, Cx("f", <<a>>), Anon}
 CmpOprs == IF Thorough THEN Oprs ELSE OprsQ
 CmpCalls ==
        {[f |-> op, args |-> <<x, y>>, prior |-> NoPrior] : op \in CmpOps, x \in CmpOprs, y \in CmpOprs}
@@ -80,6 +81,10 @@ AppCalls ==
   \cup {[f |-> "append", args |-> <<i1, i2, o>>, prior |-> p] : i1 \in In, i2 \in In, o \in {O, Lst(<<a, a, b>>)}, p \in AppPriors}
   \cup {[f |-> "append", args |-> <<i1, i2, i3, O>>, prior |-> p] : i1 \in AppInQ, i2 \in AppInQ, i3 \in AppInQ, p \in AppPriors}
   \cup (IF Thorough
+        THEN {[f |-> "append", args |-> <<i1, i2, i3, o>>, prior |-> p] : i1 \in AppIn, i2 \in AppIn, i3 \in AppIn,
+                  o \in {O, LstT(<<Z>>, O)}, p \in {P(b, Lst(<<b, Atom("c")>>), NoT), P(Cx("f", <<b>>), LstT(<<a>>, Z), Lst(<<Cx("f", <<a>>)>>))}}
+        ELSE {})
+  \cup (IF Thorough
         THEN {[f |-> "append", args |-> <<i1, i2, i3, i4, O>>, prior |-> P(b, Lst(<<b, Atom("c")>>), NoT)] :
                  i1 \in {a, Lst(<<a, b>>), X, LstT(<<a>>, Y)}, i2 \in {EmptyList, Lst(<<a, Lst(<<b>>)>>), a},
                  i3 \in {Lst(<<a, EmptyList>>), X, Cx("f", <<a>>)}, i4 \in AppInQ}
@@ -90,8 +95,11 @@ CntLists == {EmptyList, Lst(<<a>>), Lst(<<a, b, Atom("c")>>), LstT(<<a>>, Anon),
              Lst(<<Lst(<<a, b>>)>>), Lst(<<a, EmptyList>>), Lst(<<EmptyList>>), X, Lst(<<X, Y>>), LstT(<<a>>, Z)}
 CntPriors == {NoPrior, P(Lst(<<a, b>>), Lst(<<b, Atom("c")>>), NoT), P(LstT(<<a>>, Y), EmptyList, NoT),
               P(LstT(<<a>>, Y), LstT(<<b>>, Z), Lst(<<Atom("c"), Atom("d")>>)), P(NoT, Z, Lst(<<a>>))}
+CntListsT == {LstT(<<a, b>>, X), LstT(<<a>>, X), Lst(<<X, Lst(<<Y>>), Z>>), LstT(<<Lst(<<a>>), EmptyList>>, Y), Lst(<<a, b, a, b, a>>),
+              Lst(<<Cx("f", <<X>>), Cx("f", <<a>>)>>), Y, Z, LstT(<<X>>, Y)}
 CntCalls == {[f |-> "count", args |-> <<l, o>>, prior |-> p] :
-                l \in CntLists, o \in {O, IntT(2), IntT(3), a}, p \in CntPriors}
+                l \in CntLists \cup (IF Thorough THEN CntListsT ELSE {}), o \in {O, IntT(2), IntT(3), a} \cup (IF Thorough THEN {IntT(0), IntT(1), IntT(4), IntT(5), X} ELSE {}),
+                p \in CntPriors}
 
 (* ------------------------------ include / exclude ------------------------ *)
 FltPats  == {a, Y, Anon, Cx("f", <<Anon>>), Cx("f", <<Y>>), LstT(<<Anon>>, Anon), IntT(1), Z, EmptyList, Lst(<<Y>>)}
@@ -100,8 +108,12 @@ FltLists == {EmptyList, Lst(<<a>>), Lst(<<a, b, a>>), Lst(<<Cx("f", <<a>>), b, C
              X, LstT(<<a>>, X), Lst(<<Z, b>>), Lst(<<b, Lst(<<a>>), Lst(<<b, a>>)>>)}
 FltPriors == {NoPrior, P(Lst(<<b, a>>), NoT, a), P(Lst(<<Cx("f", <<a>>), Lst(<<a>>)>>), NoT, Cx("f", <<b>>)),
               P(EmptyList, a, b)}
+FltPatsT  == {Cx("g", <<Y, Y>>), Cx("g", <<Anon, a>>), Lst(<<Anon>>), LstT(<<a>>, Anon), Cx("f", <<Cx("f", <<Anon>>)>>), b, Atom("c")}
+FltListsT == {Lst(<<Cx("g", <<a, a>>), Cx("g", <<a, b>>), Cx("g", <<b, b>>)>>), Lst(<<Lst(<<a>>), Lst(<<a, b>>), EmptyList, a>>),
+              LstT(<<a, b>>, X), Lst(<<X, Z, X>>), Lst(<<Cx("f", <<Cx("f", <<a>>)>>), Cx("f", <<a>>), Cx("f", <<Lst(<<a>>)>>)>>), Lst(<<a, a, a, a>>)}
 FltCalls == {[f |-> g, args |-> <<pat, l, o>>, prior |-> p] :
-                g \in {"include", "exclude"}, pat \in FltPats, l \in FltLists,
+                g \in {"include", "exclude"}, pat \in FltPats \cup (IF Thorough THEN FltPatsT ELSE {}),
+                l \in FltLists \cup (IF Thorough THEN FltListsT ELSE {}),
                 o \in {O, Lst(<<a>>)}, p \in FltPriors}
 
 (* ------------------------------ functor --------------------------------- *)
